@@ -5,6 +5,7 @@ package main
 import (
 	"fmt"
 	"go/token"
+	"go/types"
 	"sort"
 
 	"golang.org/x/tools/go/ssa"
@@ -136,4 +137,126 @@ func ruleBlockStateInitialised(w *World, r *Report) {
 		}
 	}
 	r.Expect("(block parser, context key) pairs read in Continue/Close", n, 2)
+}
+
+// ---- C09-E: the end of the input closes every block that is still open -------------------------------------------
+
+func ruleEndOfInputClosesAll(w *World, r *Report) {
+	r.Rule("C09-E", "The block-phase driver (the function that calls BlockParser.Continue for the opened blocks and hands ranges of them to the closing helper) may return from inside the per-line loop over the opened blocks only after closing all of them: every return that lies in a loop in which the list of opened blocks is consulted is preceded in its block by a call of the closing helper whose lower index is the constant 0. Closing only from the current nesting level down leaves the enclosing blocks without their Close call (a list's tightness pass, a paragraph's transformers), so how a block renders depends on whether anything follows it.")
+	bp := w.Iface("parser", "BlockParser")
+	if bp == nil {
+		r.Unknown("parser.BlockParser", "", "not found")
+		return
+	}
+	invokes := func(fn *ssa.Function, method string) bool {
+		for _, b := range fn.Blocks {
+			for _, ins := range b.Instrs {
+				if c, ok := ins.(ssa.CallInstruction); ok && c.Common().IsInvoke() && c.Common().Method.Name() == method {
+					if it, ok := c.Common().Value.Type().Underlying().(*types.Interface); ok && types.Identical(it, bp) {
+						return true
+					}
+				}
+			}
+		}
+		return false
+	}
+	// the closing helper: invokes BlockParser.Close, has two int parameters
+	var closers []*ssa.Function
+	for _, fn := range w.Funcs {
+		if w.PkgOf(fn) != modPath+"/parser" || !invokes(fn, "Close") {
+			continue
+		}
+		ints := 0
+		for _, p := range fn.Params {
+			if isInteger(p.Type()) {
+				ints++
+			}
+		}
+		if ints >= 2 {
+			closers = append(closers, fn)
+		}
+	}
+	if len(closers) != 1 {
+		r.Unknown("closing helper of the block phase", "", fmt.Sprintf("expected one function that invokes BlockParser.Close over an index range, found %d", len(closers)))
+		return
+	}
+	closer := closers[0]
+	n := 0
+	for _, fn := range w.Funcs {
+		if w.PkgOf(fn) != modPath+"/parser" || !invokes(fn, "Continue") {
+			continue
+		}
+		callsCloser := false
+		for _, b := range fn.Blocks {
+			for _, ins := range b.Instrs {
+				if c, ok := ins.(ssa.CallInstruction); ok && c.Common().StaticCallee() == closer {
+					callsCloser = true
+				}
+			}
+		}
+		if !callsCloser {
+			continue
+		}
+		loops, _ := naturalLoops(fn)
+		// loops in which the opened-block list is consulted
+		var listLoops []*natLoop
+		for _, l := range loops {
+			for b := range l.body {
+				for _, ins := range b.Instrs {
+					if c, ok := ins.(ssa.CallInstruction); ok && c.Common().IsInvoke() && c.Common().Method.Name() == "OpenedBlocks" {
+						listLoops = append(listLoops, l)
+					}
+				}
+			}
+		}
+		// the innermost such loop(s): returns inside them are "returns while blocks may be open"
+		for _, b := range fn.Blocks {
+			ret, ok := b.Instrs[len(b.Instrs)-1].(*ssa.Return)
+			if !ok {
+				continue
+			}
+			// inside a loop that loads the list AND dominated by the list load of that loop
+			inside := false
+			for _, l := range listLoops {
+				// (a block that returns is never part of the natural loop — it cannot reach the back edge — so "inside" is
+				// decided by dominance: the return is reached only through a loop block that consults the list)
+				for lb := range l.body {
+					for _, ins := range lb.Instrs {
+						if c, ok := ins.(ssa.CallInstruction); ok && c.Common().IsInvoke() && c.Common().Method.Name() == "OpenedBlocks" && lb.Dominates(b) {
+							inside = true
+						}
+					}
+				}
+			}
+			if !inside {
+				continue
+			}
+			n++
+			key := fmt.Sprintf("%s: return #%d inside the opened-blocks loop", w.FnKey(fn), n)
+			okAll := false
+			for _, ins := range b.Instrs {
+				if c, ok := ins.(ssa.CallInstruction); ok && c.Common().StaticCallee() == closer {
+					args := c.Common().Args
+					// the int arguments, in order: (from, to)
+					var ints []ssa.Value
+					for _, a := range args {
+						if isInteger(a.Type()) {
+							ints = append(ints, a)
+						}
+					}
+					if len(ints) >= 2 {
+						if z, isC := constInt(ints[1]); isC && z == 0 {
+							okAll = true
+						}
+					}
+				}
+			}
+			if okAll {
+				r.OK(key, w.InstrPos(ret), "preceded by the closing helper with lower index 0")
+			} else {
+				r.Bad(key, w.InstrPos(ret), "the driver returns while blocks may be open without closing all of them (no call of the closing helper with lower index 0 in front of the return): the outer blocks never get their Close call when the input ends here")
+			}
+		}
+	}
+	r.Expect("returns inside the opened-blocks loop of the block-phase driver", n, 1)
 }
